@@ -196,6 +196,24 @@ func (x *Exec) verify() (res verifyResult) {
 // postcondition.
 var coverClauses bool
 
+// conformMode: emit one replayable pseudo-obligation per return path (gcv conform).
+var conformMode bool
+
+// evalClause evaluates a clause; a reference to a function that no longer exists makes the clause
+// undecidable (reason returned) instead of aborting the whole function.
+func evalClause(env *Env, e *SExpr) (goal string, undecidable string) {
+	defer func() {
+		if r := recover(); r != nil {
+			if u, ok := r.(undecidableErr); ok {
+				undecidable = u.msg
+				return
+			}
+			panic(r)
+		}
+	}()
+	return env.evalBool(e), ""
+}
+
 func mustParse(s string) *SExpr {
 	e, err := parseSpecExpr(s)
 	if err != nil {
@@ -755,6 +773,13 @@ func (x *Exec) checkPost(s *State, res []Val) {
 			}
 		}
 	}
+	if conformMode && !x.relyMode {
+		// executor conformance (DESIGN 0.12): this return path, with its final symbolic heap, is
+		// replayed on the real code from a model of its path condition
+		o := &Obligation{Name: fnName(x.fn) + "/conform:path", Func: fnName(x.fn), Kind: "conform", Label: "path", PathID: x.paths,
+			PC: append([]string(nil), s.pc...), Goal: "false", Inputs: x.inputs, Final: copyHeap(s.heap)}
+		x.obls = append(x.obls, o)
+	}
 	if coverClauses && !x.relyMode {
 		// at least one return path of the function must be reachable under its precondition
 		x.emit(s, "cover", "some_return_path_is_reachable", []string{x.prop}, "false", nil)
@@ -773,7 +798,13 @@ func (x *Exec) checkPost(s *State, res []Val) {
 		if !hasProp(c.Props, x.prop) {
 			continue
 		}
-		goal := env.evalBool(c.Expr)
+		goal, und := evalClause(env, c.Expr)
+		if und != "" {
+			fname := fnName(x.fn)
+			x.obls = append(x.obls, &Obligation{Name: fname + "/ensures:" + c.Label, Func: fname, Kind: "ensures", Label: c.Label, Props: c.Props,
+				PathID: x.paths, PC: append([]string(nil), s.pc...), Goal: "true", Clause: c, Inputs: x.inputs, Undecidable: und})
+			continue
+		}
 		name := fnName(x.fn) + "/ensures:" + c.Label
 		if kf, ok := x.P.findings[name]; ok && kf.Region != "" {
 			// known finding (DESIGN §4.5): the obligation is proved outside the recorded region,
